@@ -36,7 +36,9 @@ def configs(tier):
 
 
 def lin(W, b, z):
-    return [tm.ssum([mul(W[i, j], z[j]) for j in range(W.shape[1])] + [b[i]]) for i in range(W.shape[0])]
+    # bias first, then the products from the last input to the first: deliberately NOT the association order of
+    # dot_general, so that agreement is decided by the solver and not by hash-consing
+    return [tm.ssum([b[i]] + [mul(W[i, j], z[j]) for j in reversed(range(W.shape[1]))]) for i in range(W.shape[0])]
 
 
 def mlp_fwd(layers, z):
